@@ -63,6 +63,18 @@ CHECKS = {
         "technique": SMT + "; linear / bilinear identities in symbolic load coefficients",
         "design_ref": "DESIGN.md section 5 (C09)",
     },
+    "C04": {
+        "text": "Bounded symbolic check: the real constraint / load / solve pipeline runs with EVERY prescribed value and load symbolic (constants, nodal arrays, coefficients of functions of position, the current Newton iterate) on enumerated constraint layouts (disjoint, overlapping, duplicated, reordered, with an orphan node, with Lagrange connections); constrained dofs = sum of the entered values, (K u - F) = 0 on free dofs, orphan dofs at rest with a regular system, elimination = Lagrange multipliers on the same problem, connection constraints satisfied, in the linear and the Newton-incremental path, are linear identities holding for all values.",
+        "note": "Trusted: the ideal linear solver stub (exact rational elimination) standing for every FFI backend - that pypardiso / scipy / cg / bicg / gmres / lgmres / lsq_linear honour A x = b is outside; Sym linear-form arithmetic. Meshes: 5-7 node 2-D meshes; layouts enumerated.",
+        "technique": SMT + "; affine solution forms through the real solve pipeline with an ideal solver stub",
+        "design_ref": "DESIGN.md section 5 (C04)",
+    },
+    "C16": {
+        "text": "Bounded symbolic check: every advertised component result of Elastic (2-D mixed TRI3+QUAD4 mesh, 3-D), Thermal, WeakForms and Beam is executed on an ARBITRARY symbolic state (u, v, a havoc, not equilibrium), in several query orders (strain first, stress first, repeated reads), and compared with the component of the vector / tensor result it belongs to; nodal forms with an explicit node-averaging oracle; Svm with the von Mises norm per Gauss point (sqrt as auxiliary variables); node<->element conversion of a symbolic constant; sum Wdef_e = 1/2 u^T K u as a quadratic identity in u; reactions on a fully constrained boundary + applied loads = 0 through the stubbed solve.",
+        "note": "Trusted: Sym arithmetic, z3, the code's own Gauss-point strain/stress fields (correctness of those is C01's). Hyperelastic / phase-field / inelastic result tables are outside (their states need Newton solves). Small meshes.",
+        "technique": SMT + "; symbolic havoc state through the Result dispatch",
+        "design_ref": "DESIGN.md section 5 (C16)",
+    },
 }
 
 NOT_APPLICABLE = {
